@@ -59,7 +59,7 @@ SETS["allocator"] = {
 
 def _gen_allocator():
     """struct Executor reduced to its heap fields + allocate_binary_data + process_pending_free, verbatim."""
-    parts = ["use std::rc::Rc;\npub trait Effect {}\n"]
+    parts = ["use std::rc::Rc;\npub trait Effect {}\npub fn verif_format<T>(_t: T) -> String { String::new() }\npub fn verif_debug_assert(c: bool) { assert!(c); }\n"]
     prov = []
 
     def cut(rel, kind, name, keep=None, extra=None, derive=None):
@@ -81,6 +81,9 @@ def _gen_allocator():
             it, _ = rs.find_fn(S.src, S.mask, ty + "::" + fn)
             text = S.src[it.start : it.end]
             prov.append({"item": "fn %s::%s" % (ty, fn), "file": rel, "lines": [rs.line_of(S.src, it.start), rs.line_of(S.src, it.end)], "sha256": hashlib.sha256(text.encode()).hexdigest()})
+            # N1 (format! -> verif_format): Display formatting dominates CBMC's cost and is irrelevant here
+            m = S.mask[it.start : it.end]
+            text, _ = extract.apply_edits(text, extract.norm_macros(text, m, ["crate::value::"]))
             body.append(text)
         hdr = "impl BinaryData" if ty == "BinaryData" else "impl<E: Effect> Executor<E>"
         parts.append("%s {\n%s\n}\n" % (hdr, "\n\n".join(body)))
